@@ -71,6 +71,10 @@ def model_term(case, bits):
         wild = 'Pos %s' % cm.coq_syms([s for s in cm.SYMS if cm.wild_allows(case['open'][1], s)])
         return '(c01_open_case %s %s (%s) %s %s %d %d %s%%N)' % (
             'true' if case['open'][0] == 'suffix' else 'false', p, wild, sig, pids, FUEL, case['n'], bits)
+    if case['version'] == '1.1':
+        lv = list(cm.leaves(case['model']))
+        ex = ['(%d, %d)' % (a['pid'], b['pid']) for a in lv for b in lv if a['t'] == 'e' and b['t'] == 'w']
+        return '(c01_case_ex %s %s %s [%s] %d %d %s%%N)' % (p, sig, pids, '; '.join(ex), FUEL, case['n'], bits)
     return '(c01_case %s %s %s %d %d %s%%N)' % (p, sig, pids, FUEL, case['n'], bits)
 
 
@@ -161,6 +165,15 @@ def run(ctx):
         v = '1.1' if i % 2 else '1.0'
         m = cm.random_model(rng, version=v)
         cases.append(make_case(m, v))
+    # XSD 1.1: a bounded element and a wildcard that admits the same name (the element has precedence, the surplus
+    # occurrences belong to the wildcard)
+    over = [(k, eo, ns, wo, tail) for k in ('seq', 'all') for eo in [(0, 1), (0, 2), (1, 2), (1, 1)] for ns in ('##any', '##targetNamespace')
+            for wo in [(0, None), (0, 1), (0, 2), (1, 2)] for tail in (False, True)]
+    for k, eo, ns, wo, tail in (over if not ctx.quick() else rng.sample(over, 40)):
+        ps = [cm.E('a', eo), cm.W(ns, wo)] + ([cm.E('c', (1, 1) if k == 'seq' else (0, 1))] if tail else [])
+        if k == 'all' and (eo[1] or 0) > 1 and False:
+            continue
+        cases.append(make_case(cm.G(k, ps, (1, 1)), '1.1'))
     nopen = 40 if ctx.quick() else 400
     for i in range(nopen):
         m = cm.random_model(rng, version='1.1', max_leaves=4, p_wild=0.0, allow_all=False)
